@@ -76,6 +76,28 @@ def replay_c13_curve(args):
     def scale(t, lam):
         return tuple(c * lam % p for c in t)
     cases = []
+    pt = args.get("point") or {}
+    if pt:
+        # the witness of the failing path: its substitutions are exact; equality literals that
+        # could not be solved for an atom (equal / inverse points) are enforced by construction
+        g = lambda n: int(pt.get(n, rng.randrange(1, p))) % p
+        a = (g("x1"), g("y1"), g("z1"))
+        b = (g("x2"), g("y2"), g("z2"))
+        zl = " ".join(args.get("zero_lits") or [])
+        cases.append((a, b))
+        if args.get("scaled"):
+            lam, mu = g("lam"), g("mu")
+            if "lam" in zl and a[0] and "x1" in zl and "x2" not in zl:
+                # literal lam*x1 - c == 0: solve for lam
+                import re as _re
+                m_ = _re.search(r"\(\* lam x1\) \(- (\d+)\)", zl)
+                if m_:
+                    lam = int(m_.group(1)) * _inv(a[0], p) % p
+            cases.append((scale(a, lam), scale(b, mu)))
+        if "x2" in zl and "x1" in zl:
+            k = b[2] if b[2] else 1
+            cases.append((a, scale(a, k * _inv(a[2], p) % p if a[2] else k)))
+            cases.append((a, scale((a[0], -a[1] % p, a[2]), k * _inv(a[2], p) % p if a[2] else k)))
     for _ in range(6):
         a, b = _rand_pts(rng, p, 2)
         lam, mu = rng.randrange(1, p), rng.randrange(1, p)
@@ -205,3 +227,53 @@ def replay_c13_jacobian(args):
             if got != exp:
                 bad.append((f, P1, P2, got, exp))
     return (len(bad) > 0), "c13_jacobian %s: %d mismatches; first: %s" % (f, len(bad), str(bad[:1])[:400])
+
+
+def replay_import(args):
+    """the module fails to import on the real tree (import-time self-check or error)."""
+    name = args["module"]
+    try:
+        importlib.import_module(name)
+    except Exception as e:
+        return True, "import %s raises %s: %s" % (name, type(e).__name__, e)
+    return False, "import %s succeeds" % name
+
+
+def _fq_class(impl, curve, kind="FQ"):
+    f = importlib.import_module("py_ecc.fields")
+    return getattr(f, ("optimized_" if impl == "opt" else "") + curve + "_" + kind)
+
+
+def replay_c08_fq(args):
+    """differential run of every FQ operator against plain modular arithmetic on boundary and random operands."""
+    FQ = _fq_class(args["impl"], args["curve"])
+    p = FQ.field_modulus
+    rng = random.Random(5)
+    vals = [0, 1, 2, p - 1, p - 2, (p - 1) // 2, (p + 1) // 2] + [rng.randrange(p) for _ in range(6)]
+    ints = [0, 1, -1, p, p + 1, -p, 2 * p + 3, -(3 * p) - 7, 2 ** 400] + [rng.randrange(-p * p, p * p) for _ in range(4)]
+    bad = []
+
+    def chk(name, got, exp, *ctx):
+        ok = isinstance(got, FQ) and isinstance(got.n, int) and got.n == exp % p
+        if not ok:
+            bad.append((name, ctx, getattr(got, "n", got), exp % p))
+    for a in vals:
+        x = FQ(a)
+        chk("neg", -x, -a, a)
+        for e in (0, 1, 2, 3, 5, 8, 13):
+            chk("pow", x ** e, pow(a, e, p), a, e)
+        for b in vals:
+            y = FQ(b)
+            chk("add", x + y, a + b, a, b); chk("sub", x - y, a - b, a, b); chk("mul", x * y, a * b, a, b)
+            chk("div", x / y, a * _inv(b, p), a, b)
+            if (x == y) != (a == b) or (x != y) != (a != b) or (x < y) != (a < b):
+                bad.append(("cmp", a, b))
+        for b in ints:
+            chk("add_int", x + b, a + b, a, b); chk("radd", b + x, a + b, a, b)
+            chk("sub_int", x - b, a - b, a, b); chk("rsub", b - x, b - a, a, b)
+            chk("mul_int", x * b, a * b, a, b); chk("rmul", b * x, a * b, a, b)
+            chk("div_int", x / b, a * _inv(b, p), a, b); chk("rdiv", b / x, b * _inv(a, p), a, b)
+            chk("init", FQ(b), b, b)
+        if x.n != a:
+            bad.append(("mutated", a))
+    return (len(bad) > 0), "c08_fq %s/%s: %d mismatches; first: %s" % (args["impl"], args["curve"], len(bad), str(bad[:1])[:400])
